@@ -33,7 +33,7 @@ ASSUMPTIONS = ['<= 2 messages per command, <= 8 suspension points, at most one c
 STUBS = ['mailbox read-write locks: acquisition may suspend (symbolic), no exclusion needed with a single running command',
          'the command coroutine is driven by the harness; cancellation = throwing CancelledError at a suspension']
 OUTSIDE = ['process kill and the maildir rename / UID-list window (C15)', 'exceptions from storage calls (the dict '
-           'backend has none)', 'two commands really interleaving inside the window (C20 covers the lock itself)']
+           'backend has none)', 'more than 3 commands interleaving']
 
 _g: dict = {}
 OPS = ['move', 'uidmove', 'copy', 'append2', 'expunge']
@@ -220,7 +220,12 @@ def _harness(ops):
 
 def harnesses(tier):
     from pysymex.runner import Harness
-    return [Harness('fault_schedule[%s]' % op, _harness([op]), {'op': op, 'suspension_points': '<= 8',
+    from checks import _conc
+    q = tier == 'quick'
+    extra = [Harness('interleaved_commands[tasks=%d,delays<=%d]' % (nt, nd), _conc.adders_harness(_g, nt, 'conservation', nd),
+                     {'tasks': nt, 'ops': _conc.ADD_OPS, 'third_party_delays': nd}, replay='adders', task_budget=60)
+             for nt, nd in ([(2, 3)] if q else [(2, 6), (3, 3)])]
+    return extra + [Harness('fault_schedule[%s]' % op, _harness([op]), {'op': op, 'suspension_points': '<= 8',
                                                                  'cancellations': '<= 1'},
                     replay='schedule', task_budget=60) for op in OPS]
 
@@ -228,6 +233,10 @@ def harnesses(tier):
 def replay(harness, w):
     from checks import _sim
     g = _sim.bindings()
+    if harness == 'adders':
+        from checks import _conc
+        bad = _conc.adders_replay(g, _sim, w)
+        return {'violates': bool(bad), 'detail': bad[:3], 'kind': 'interleaved', 'category': 'interleaved:' + (bad[0] if bad else '')[:50]}
     picks = list(w['picks'])
 
     def pick(what):
@@ -245,6 +254,8 @@ def replay(harness, w):
 
 def classify(harness, w, res):
     k = res.get('kind')
+    if 'op' not in w:
+        return None
     # only the recorded fault points: a cancellation while suspended on a lock
     if w['op'] in ('move', 'uidmove') and k == 'lost-cancelled':
         return 'C14-move-cancel-window'
